@@ -39,5 +39,8 @@ def run(ctx):
     # an active queue moved under a serial queue (and back) while synchronous submitters hand it to each other: a call returns only after its
     # item has run, with its result visible (c02_retarget's return / visibility oracle; the hand-off consults the queue's role in the hierarchy)
     run_traces(ctx, "c02_retarget", [[ctx.seed * 100 + 70 + i, 6, 4000 if ctx.thorough else 2000, i % 2] for i in range(3 if ctx.thorough else 2)], None, None, "L-api retargeted queue hand-off", "retarget", timeout=200)
+    # "after dispatch_group_wait or a group notify block observes it": the leave implied by dispatch_group_async goes to the group the item was
+    # submitted with, also when the item itself first submits into another group (tr_group nest)
+    run_traces(ctx, "tr_group", [["nest", ctx.seed, 300 if ctx.thorough else 60]], None, None, "L-api nested group submissions", "group-nest", timeout=200)
     ctx.cov["rule"] = ("c05_hb: N threads x ops of sync / barrier_sync / async_and_wait / barrier_async_and_wait / async on one serial and one concurrent queue with payload checks, then "
                        "group / semaphore / once rounds; items = work items judged; transitions = dte_value transitions explained by EventP")
